@@ -54,9 +54,15 @@ class _Licensing(Licensing):
     while a text is parsed, the text is an expression that cannot be parsed.
     """
 
+    #: The library works on expressions recursively (hashing, comparing,
+    #: rendering, pickling for the worker processes). An expression nested
+    #: deeper than this---no licensing statement comes anywhere near---would
+    #: exhaust the interpreter's recursion limit somewhere later on.
+    MAX_DEPTH = 100
+
     def parse(self, expression: Any, *args: Any, **kwargs: Any) -> Any:
         try:
-            return super().parse(expression, *args, **kwargs)
+            result = super().parse(expression, *args, **kwargs)
         except (ExpressionError, ParseError):
             raise
         # pylint: disable=broad-except
@@ -64,6 +70,20 @@ class _Licensing(Licensing):
             raise ExpressionError(
                 f"Invalid license expression: {expression!r}"
             ) from error
+        # Depth of the parsed expression, without recursion.
+        level = [result] if result is not None else []
+        depth = 0
+        while level:
+            depth += 1
+            if depth > self.MAX_DEPTH:
+                raise ExpressionError(
+                    "License expression is nested too deeply:"
+                    f" {str(expression)[:40]!r}..."
+                )
+            level = [
+                arg for node in level for arg in getattr(node, "args", ())
+            ]
+        return result
 
 
 _LICENSING = _Licensing()
